@@ -77,7 +77,8 @@ def kind_of(q):
     return None
 
 
-LTYPE = {'i': 'Int', 'w': 'BitVec 64', 'u': 'BitVec 32', 'm2': 'Int → Int → BitVec 64', 'b': 'Bool'}
+LTYPE = {'i': 'Int', 'w': 'BitVec 64', 'u': 'BitVec 32', 'm2': 'Int → Int → BitVec 64', 'b': 'Bool', 'm1i': 'Int → Int',
+         'cb': 'Int → Int → Int'}
 WIDTH = {'w': 64, 'u': 32}
 
 
@@ -149,6 +150,7 @@ class Fn:
         self.pending = []         # postfix side effects of the statement being translated
         self.ret_kind = None
         self.void_outs = None
+        self.prelude = ''
         self.loops = []           # enclosing loops being translated: dict(t=state tuple, inc=[..], brk=flag name or None)
         self.brk_no = 0
 
@@ -249,6 +251,16 @@ class Fn:
         if k == 'ArraySubscriptExpr' and strip(n['inner'][0]).get('kind') not in ('DeclRefExpr', 'MemberExpr'):
             mem, row, idx = self.target(n)
             return '(%s %s %s)' % (V(mem), row, idx)
+        if k == 'ArraySubscriptExpr' and strip(n['inner'][0]).get('kind') == 'MemberExpr' and \
+           strip(strip(n['inner'][0])['inner'][0]).get('kind') == 'ArraySubscriptExpr':
+            # `m4ri_codebook[k]->inc[i]` / `->ord[i]`: the global code book is a pair of function parameters
+            mb = strip(n['inner'][0])
+            sub = strip(mb['inner'][0])
+            g_ = strip(sub['inner'][0])
+            if g_.get('kind') == 'DeclRefExpr' and g_['referencedDecl']['name'] == 'm4ri_codebook' and mb['name'] in ('inc', 'ord'):
+                nm = self.free('v_codebook_' + mb['name'], 'cb', ('global', 'codebook_' + mb['name']))
+                return '(%s %s %s)' % (nm, self.as_int(sub['inner'][1]), self.as_int(n['inner'][1]))
+            raise CTransError('%s: unsupported global array' % self.name)
         if k == 'ArraySubscriptExpr' and strip(n['inner'][0]).get('kind') == 'MemberExpr':
             # `P->values[i]`: a read-only array field of a struct parameter -> function parameter
             mb = strip(n['inner'][0])
@@ -392,6 +404,8 @@ class Fn:
                     self.locals[mem] = 'm2'
                     self.free(V(mem), 'm2', ('mem', y))
                 out.append(V(mem))
+            elif org[0] == 'global':
+                out.append(self.free('v_' + org[1], lk, org))
             elif org[0] == 'same':
                 ya, yb = bind[org[1]][1], bind[org[2]][1]
                 out.append('true' if ya == yb else self.free('v_%s__same__%s' % (ya, yb), 'b', ('same', ya, yb)))
@@ -604,6 +618,8 @@ class Fn:
             if t.get('kind') != 'DeclRefExpr':
                 rhs = self.value(n['inner'][1])
                 mem, row, idx = self.target(t)
+                if self.locals.get(mem) == 'm1i':
+                    return mem, '(CLoop.upd1 %s %s %s)' % (V(mem), idx, rhs)
                 return mem, '(CLoop.upd2 %s %s %s %s)' % (V(mem), row, idx, rhs)
             if t['referencedDecl']['name'] in self.ptrs:
                 raise CTransError('%s: re-assignment of pointer %s' % (self.name, t['referencedDecl']['name']))
@@ -982,13 +998,17 @@ class Fn:
             chain = '(if %s = (%d : Int) then (%d : Int) else %s)' % ('sw_sel', l, p, chain)
         out = '%slet sw_sel : Int := %s\n%slet sw_pos : Int := %s\n' % (pad, sel, pad, chain)
         for p, (labels, st, sf) in enumerate(labelled):
+            self.pending = []
             a = self.assign_stmt(st) if st.get('kind') in ('BinaryOperator', 'CompoundAssignOperator', 'UnaryOperator') else None
-            if not a:
-                raise CTransError('%s: switch case body is not a simple assignment' % self.name)
-            nm, e = a
             cond = 'decide (sw_pos ≤ (%d : Int))' % p
             if sf > 0:
                 cond = '(%s && decide ((%d : Int) ≤ sw_pos))' % (cond, sf)
+            if not a or self.pending:
+                # a general statement (side effects on cursors, several variables): re-bind everything it assigns
+                self.pending = []
+                out += self.guarded(cond, [st], ind)
+                continue
+            nm, e = a
             out += '%slet %s : %s := if %s then %s else %s\n' % (pad, V(nm), self.ltype(nm), cond, e, V(nm))
         return out + self.seq(rest, k_final, ind)
 
@@ -1093,7 +1113,7 @@ class Translator:
         if not re.search(r'static\s+word\s+const\s+m4ri_ffff\s*=\s*__M4RI_CONVERT_TO_WORD\(-1\)', misc):
             raise CTransError('misc.h: definition of m4ri_ffff not recognised')
 
-    def function(self, cfile, cname, lname, fuels=(), slice_=None, doc='', nosse=False, outparams=None):
+    def function(self, cfile, cname, lname, fuels=(), slice_=None, doc='', nosse=False, outparams=None, mem1=None):
         for i, f in enumerate(fuels):
             self.fuels[(cname if not slice_ else lname, i + 1)] = f
         ast = clang_ast(self.tu_dir if not nosse else self.tu_dir_nosse, cfile, cname, sse=not nosse)
@@ -1107,6 +1127,16 @@ class Translator:
                         raise CTransError('%s: parameter %s of unsupported type %r' % (cname, p.get('name'), p['type']['qualType']))
                     if pk == 'p:?':
                         continue                       # a struct pointer (mzd_t *): its fields / rows become parameters on use
+                    if pk == 'p:i' and p['name'] in (mem1 or ()):
+                        # an integer array written by the function: a 1-dimensional memory, returned with the others
+                        mname = 'mem1_' + p['name']
+                        fn.locals[mname] = 'm1i'
+                        fn.free(V(mname), 'm1i', ('scalar', p['name']))
+                        fn.ptrs[p['name']] = (mname, '')
+                        fn.ptr_mem[p['name']] = mname
+                        fn.locals[p['name']] = 'i'
+                        fn.prelude += '  let %s : Int := (0 : Int)\n' % V(p['name'])
+                        continue
                     if pk == 'p:i' and p['name'] in (outparams or ()):
                         # written through `*p = e`: a local holding the pointee; its initial value is a parameter
                         fn.outparams.append(p['name'])
@@ -1120,14 +1150,16 @@ class Translator:
             fn.prepass(body)
             stmts = list(body.get('inner', []))
             if rt == 'void':
-                outs = [x for x in fn.assigned(stmts) if x.startswith('mem_')]
+                outs = [x for x in fn.assigned(stmts) if x.startswith('mem_') or x.startswith('mem1_')]
                 if not outs:
                     raise CTransError('%s: void function that writes no modelled memory' % cname)
                 fn.void_outs = outs
                 for m_ in outs:
+                    if m_.startswith('mem1_'):
+                        continue
                     fn.locals[m_] = 'm2'
                     fn.free(V(m_), 'm2', ('mem', m_[4:]))
-                term = fn.seq(stmts, lambda: fn.tup(outs), 1)
+                term = fn.prelude + fn.seq(stmts, lambda: fn.tup(outs), 1)
                 rty = fn.tup_type(outs)
             else:
                 fn.ret_kind = kind_of(rt)
@@ -1249,10 +1281,15 @@ def catalogue(t):
          ['(v_stoprow).toNat + 1', '(v_M_width).toNat', '(v_stoprow).toNat + 1', '(v_M_width).toNat']
     F('m4ri/brilliantrussian.c', 'mzd_process_rows', 'mzdProcessRows', nosse=True, fuels=PR,
       doc='Four-Russians row update with ONE table: k = 1 fast path on row pairs, general path, Duff devices')
+    F('m4ri/brilliantrussian.c', 'mzd_make_table', 'mzdMakeTable', nosse=True, mem1=('L',),
+      fuels=['(v_k).toNat ^ 2 + 2 ^ (v_k).toNat', '(v_M_width).toNat'],
+      doc='Gray-code table construction: 8-fold unrolled word loop + fall-through tail')
     F('m4ri/mzd.c', 'mzd_row_swap', 'mzdRowSwap0')
     F('m4ri/mzd.c', 'mzd_row_add', 'mzdRowAdd', nosse=True)
     F('m4ri/mzd.c', 'mzd_gauss_delayed', 'mzdGaussDelayed', nosse=True,
       fuels=['(v_M_ncols).toNat', '(v_M_nrows).toNat', '(v_M_nrows).toNat'])
+    F('m4ri/mzp.c', 'mzd_apply_p_left', 'mzdApplyPLeft', fuels=['(v_A_nrows).toNat'])
+    F('m4ri/mzp.c', 'mzd_apply_p_left_trans', 'mzdApplyPLeftTrans', fuels=['(v_A_nrows).toNat'])
     R, W = '(v_A_nrows).toNat', '(v_A_width).toNat'
     F('m4ri/mzd.c', 'mzd_find_pivot', 'mzdFindPivot', outparams=('r', 'c'),
       fuels=['(v_A_ncols).toNat + 1', R, '64', R, '64', W, R, '64', R, '64'])
@@ -1311,6 +1348,8 @@ def ishl (a : Int) (n : Nat) : Int := a * 2 ^ n
 /-- store into a 2-dimensional word memory (row, word index) -/
 def upd2 (m : Int → Int → BitVec 64) (r i : Int) (v : BitVec 64) : Int → Int → BitVec 64 :=
   fun r' i' => if r' = r ∧ i' = i then v else m r' i'
+/-- store into a 1-dimensional integer array -/
+def upd1 (m : Int → Int) (i v : Int) : Int → Int := fun i' => if i' = i then v else m i'
 /-- a constant local array -/
 def tab {α : Type} (l : List α) (d : α) (i : Int) : α := if i < 0 then d else l.getD i.toNat d
 end M4ri.Gen.CLoop
